@@ -1065,7 +1065,19 @@ static void gen_expr(Node *node) {
     pop("%rdi");
 
     Type *ty = node->lhs->ty->base;
+
+    // A floating value is exchanged through %rax.
+    if (ty->kind == TY_FLOAT)
+      println("  movd %%xmm0, %%eax");
+    else if (ty->kind == TY_DOUBLE)
+      println("  movq %%xmm0, %%rax");
+
     println("  xchg %s, (%%rdi)", reg_ax(ty->size));
+
+    if (ty->kind == TY_FLOAT)
+      println("  movd %%eax, %%xmm0");
+    else if (ty->kind == TY_DOUBLE)
+      println("  movq %%rax, %%xmm0");
 
     // A value shorter than 4 bytes is kept sign- or zero-extended in
     // %eax; xchg has only replaced the low byte or word.
